@@ -97,6 +97,7 @@ type Case struct {
 	KeepDerived  bool         `json:"keep_derived,omitempty"`
 	Pkg2         []FileSpec        `json:"pkg2,omitempty"` // files of a second package q processed by the same invocation (goderive ./p ./q)
 	ExtraCalls   []CallSpec        `json:"extra_calls,omitempty"` // derive calls written in raw Extra files of package p (for the clash oracle only)
+	ExtraFixed   bool              `json:"extra_fixed,omitempty"` // the raw Extra files of package p hold no derive call: a run must leave them as they are
 	NoModel      bool              `json:"no_model,omitempty"` // multi-pass / multi-package cases: no regall line of the Lean model
 	Extra        map[string]string `json:"extra,omitempty"` // further files of the module (path relative to the module root): imported packages
 	Group        string       `json:"group,omitempty"` // C12: cases of one group are renamings of each other
